@@ -24,6 +24,7 @@ KIND_DTYPE = {"i": np.int64, "f": np.float64, "b": np.bool_}
 
 
 MUTANT = None  # set only by binding_selftest
+MAPBLOCKS_INFER_META = False   # C29: map_blocks without dtype (meta inference calls the user function)
 
 
 class SpecMismatch(Exception):
@@ -226,7 +227,10 @@ def apply_action(mod, act, env, lib):
             shp[ax] = x.shape[ax]
             return (x.astype(np.int64) if x.dtype == bool else x) + np.arange(x.shape[ax]).reshape(shp)
         fn = make_blockfn(ax, act["use"], tuple(tuple(c) for c in x.chunks), x.ndim)
-        out = x.map_blocks(fn, dtype=np.int64 if x.dtype == bool else x.dtype)
+        if MAPBLOCKS_INFER_META:
+            out = x.map_blocks(fn)          # no dtype: dask_array has to infer the meta by calling fn on an empty block
+        else:
+            out = x.map_blocks(fn, dtype=np.int64 if x.dtype == bool else x.dtype)
         out._verif_blockfn = fn
         return out
     if a == "MaskSelect":
@@ -288,12 +292,16 @@ def make_blockfn(ax, use, chunks_at_call, ndim):
     """block function for the MapBlocks action: adds to every element its global position along `ax`, derived from the
     block_info / block_id it is GIVEN (never from anything else), and logs every invocation."""
     calls = []
+    iolog = []
 
     def start_from_id(block_id):
         return int(sum(chunks_at_call[ax][: block_id[ax]]))
 
     def body(block, block_info, block_id):
+        from .iosrc import PHASE
+
         rec = {"shape": [int(v) for v in np.shape(block)]}
+        iolog.append({"e": "call", "size": int(np.size(block)), "phase": PHASE[0]})
         start = None
         if block_info is not None:
             bi = block_info[0]
@@ -306,7 +314,10 @@ def make_blockfn(ax, use, chunks_at_call, ndim):
             rec["block_id"] = [int(v) for v in block_id]
             if start is None:
                 start = start_from_id(block_id)
-        calls.append(rec)
+        if start is None:          # called without layout information (meta inference on an empty block)
+            start = 0
+        else:
+            calls.append(rec)
         shp = [1] * ndim
         shp[ax] = np.shape(block)[ax]
         b = block.astype(np.int64) if block.dtype == bool else block
@@ -322,8 +333,53 @@ def make_blockfn(ax, use, chunks_at_call, ndim):
         def fn(block, block_info=None, block_id=None):
             return body(block, block_info, block_id)
     fn.calls = calls
+    fn.iolog = iolog
     fn.chunks_at_call = chunks_at_call
     return fn
+
+
+def _set_numpy_limit(nbytes):
+    """configuration scaling: the 64 MiB threshold below which a sliced NumPy source is copied eagerly is a module
+    constant; lowering it reaches the deferred-region path with tiny arrays (None restores the default)"""
+    import dask_array.io._from_array as fa
+
+    if not hasattr(fa, "_NUMPY_SLICE_PUSHDOWN_NBYTES_LIMIT"):
+        raise tlc.MachineryError("dask_array.io._from_array._NUMPY_SLICE_PUSHDOWN_NBYTES_LIMIT disappeared (refactored?)")
+    if not hasattr(fa, "_verif_default_limit"):
+        fa._verif_default_limit = fa._NUMPY_SLICE_PUSHDOWN_NBYTES_LIMIT
+    fa._NUMPY_SLICE_PUSHDOWN_NBYTES_LIMIT = fa._verif_default_limit if nbytes is None else nbytes
+
+
+def make_source(da, arr, grid, spec, ctx):
+    """The dask_array collection over a source.  spec None: from_array over the NumPy array.  Otherwise a dict:
+    kind 'numpy' | 'rec' (recording array-like) | 'rec-grid' (with a storage grid = the chunk grid's maximal sizes),
+    wrap 'from_array' | 'asarray' | 'asanyarray', lock (bool), fancy (bool), getitem (bool: custom getter)"""
+    _set_numpy_limit((spec or {}).get("numpy_limit"))
+    if not spec:
+        return da.from_array(arr, chunks=grid)
+    from . import iosrc
+
+    src = arr
+    if spec.get("kind", "numpy") != "numpy":
+        src = iosrc.RecordingSource(arr, grid=grid if spec["kind"] == "rec-grid" else None)
+        ctx.setdefault("rec_src", []).append(src)
+    wrap = spec.get("wrap", "from_array")
+    if wrap == "asarray":
+        return da.asarray(src)
+    if wrap == "asanyarray":
+        return da.asanyarray(src)
+    kw = {}
+    if spec.get("lock"):
+        lock = iosrc.CountingLock()
+        ctx.setdefault("locks", []).append(lock)
+        kw["lock"] = lock
+    if spec.get("fancy") is False:
+        kw["fancy"] = False
+    if spec.get("getitem"):
+        glog = []
+        ctx.setdefault("getitem_logs", []).append(glog)
+        kw["getitem"] = iosrc.custom_getitem(glog)
+    return da.from_array(src, chunks=grid, **kw)
 
 
 def apply_inplace(act, env, lib, np_env=None):
@@ -461,8 +517,11 @@ def replay_one(beh, grids, observers=(), compute_all=True, opts=None, emit=None)
            "opts": opts or {}, "emit": emit if emit is not None else [], "cur": cur}
     last = len(prog) - 1
     last_only = bool((opts or {}).get("last_only"))
+    from . import iosrc
+
     for k, act in enumerate(prog):
         exp = env[k]
+        iosrc.set_phase("constructing")
         if act["a"] == "Source":
             arr = src_array(act)
             want = env_to_np(exp)
@@ -474,7 +533,7 @@ def replay_one(beh, grids, observers=(), compute_all=True, opts=None, emit=None)
             gi += 1
             user_src = arr.copy()       # the array "the user passed in": must never change (C10, C11)
             ctx.setdefault("np_src", []).append(user_src)
-            d = da.from_array(user_src, chunks=g)
+            d = make_source(da, user_src, g, (opts or {}).get("source"), ctx)
             da_env.append(d)
             if not last_only:
                 for ob in observers:
@@ -532,6 +591,7 @@ def replay_one(beh, grids, observers=(), compute_all=True, opts=None, emit=None)
                         # specification's handles are distinct collection objects, as after the user's x.copy()
                         d = d.copy()
                 if compute_all or expect_err:
+                    iosrc.set_phase("executing")
                     got = d.compute(scheduler="sync")
         except NotImplementedError as ex:
             d_err = ex
@@ -611,6 +671,8 @@ def _worker(args):
         obs.append(getattr(importlib.import_module(m), f))
     rng = random.Random(seed)
     out = Outcome()
+    global MAPBLOCKS_INFER_META
+    MAPBLOCKS_INFER_META = bool((opts or {}).get("infer_meta"))
     for beh in behs:
         for grids in variants(beh, max_variants, rng):
             out.n_programs += 1
